@@ -1034,7 +1034,83 @@ class Inliner:
             out.append(st)
         return out
 
+    def restore_moved_definitions(self):
+        """`NAME = _Holder.func` (module level) or `name = staticmethod(_helper)` / `name = _helper` (class body) where the inventory
+        knows NAME as a function/method of exactly this place and the right-hand side resolves to a function the inventory does
+        NOT know: the definition was moved and the old name kept as an alias. The analysed tree gets the definition back under
+        its old name (a copy; the moved original stays where it is)."""
+        for m in self.prog.modules.values():
+            changed = False
+            holders = [(m.modname, m.tree)] + [(f"{m.modname}.{c.name}", c) for c in m.tree.body if isinstance(c, ast.ClassDef)]
+            for prefix, holder in holders:
+                for k, st in enumerate(list(holder.body)):
+                    if not (isinstance(st, ast.Assign) and len(st.targets) == 1 and isinstance(st.targets[0], ast.Name)):
+                        continue
+                    name = st.targets[0].id
+                    if f"{prefix}.{name}" not in self.inventory:
+                        continue
+                    v = st.value
+                    wrapper = None
+                    if isinstance(v, ast.Call) and isinstance(v.func, ast.Name) and v.func.id in ("staticmethod", "classmethod") and len(v.args) == 1 and not v.keywords:
+                        wrapper, v = v.func.id, v.args[0]
+                    if not isinstance(v, (ast.Name, ast.Attribute)):
+                        continue
+                    r = None
+                    if isinstance(v, ast.Name) and holder is not m.tree:
+                        r = next((f for f in holder.body if isinstance(f, ast.FunctionDef) and f.name == v.id), None)
+                    if r is None:
+                        rr = self.prog.resolve_expr(m, v)
+                        r = rr.node if isinstance(rr, DefRef) and isinstance(rr.node, ast.FunctionDef) else None
+                    if r is None or qualname_of(r) in self.inventory:
+                        continue
+                    new = clone(r)
+                    new.name = name
+                    decos = [d for d in new.decorator_list if not (isinstance(d, ast.Name) and d.id in ("staticmethod", "classmethod"))]
+                    was_static = any(isinstance(d, ast.Name) and d.id == "staticmethod" for d in new.decorator_list)
+                    was_class = any(isinstance(d, ast.Name) and d.id == "classmethod" for d in new.decorator_list)
+                    if was_class or wrapper == "classmethod":
+                        continue  # the class a classmethod receives differs between the two places
+                    new.decorator_list = decos
+                    if holder is not m.tree and (wrapper == "staticmethod" or was_static):
+                        new.decorator_list = [ast.Name(id="staticmethod", ctx=ast.Load())] + decos
+                    ast.copy_location(new, st)
+                    ast.fix_missing_locations(new)
+                    _set_module(new, m)
+                    holder.body[holder.body.index(st)] = new
+                    self.inlined_calls.append(f"<moved> {prefix}.{name} <- {qualname_of(r)}")
+                    changed = True
+            if changed:
+                relink(m)
+                m._symbols = None
+        # methods moved into a base class / mixin the inventory does not know: the known class gets them back
+        for m in self.prog.modules.values():
+            changed = False
+            for c in [n for n in ast.walk(m.tree) if isinstance(n, ast.ClassDef)]:
+                cq = qualname_of(c)
+                if cq not in self.inventory:
+                    continue
+                own = {f.name for f in c.body if isinstance(f, (ast.FunctionDef, ast.AsyncFunctionDef))} | \
+                    {t.id for a in c.body if isinstance(a, ast.Assign) for t in a.targets if isinstance(t, ast.Name)}
+                for b in c.bases:
+                    rb = self.prog.resolve_expr(m, b) if isinstance(b, (ast.Name, ast.Attribute)) else None
+                    if not (isinstance(rb, DefRef) and isinstance(rb.node, ast.ClassDef)) or qualname_of(rb.node) in self.inventory:
+                        continue
+                    for f in rb.node.body:
+                        if isinstance(f, ast.FunctionDef) and f.name not in own and f"{cq}.{f.name}" in self.inventory \
+                                and not any(isinstance(x, ast.Name) and x.id == "super" for x in ast.walk(f)):
+                            new = clone(f)
+                            _set_module(new, m)
+                            c.body.append(new)
+                            own.add(f.name)
+                            self.inlined_calls.append(f"<moved> {cq}.{f.name} <- {qualname_of(f)}")
+                            changed = True
+            if changed:
+                relink(m)
+                m._symbols = None
+                self.prog._class_index = None
+
     def run(self):
+        self.restore_moved_definitions()
         # phase 0: loops over constant tables become straight-line code everywhere (also inside helpers, so that a helper whose only
         # loop was a dispatch table has no `return` inside a loop any more and can be inlined)
         for m in self.prog.modules.values():
